@@ -37,7 +37,11 @@ Holds(cl, t) ==
                              /\ ~RunCp(tr.un.f1, {"us"}, 2)
       [] cl = "C20.others" -> \A s \in StepNames : KeepCp(F(tr, s).f1, WsOf(s)) = KeepCp(tr.x, WsOf(s))
       [] cl = "C20.compose" -> \A y \in DOMAIN tr.lists :
-                                  (tr.lists[y].werr = "" /\ tr.lists[y].serr = "") => tr.lists[y].whole = tr.lists[y].seq
+                                  (tr.lists[y].werr = "" /\ tr.lists[y].serr = "") =>
+                                      /\ tr.lists[y].whole = tr.lists[y].seq
+                                      \* history: the same list applied AGAIN, immediately, to its own output (the call
+                                      \* before it had the same steps and returned exactly this input)
+                                      /\ tr.lists[y].whole2 = tr.lists[y].seq2
       [] cl = "C20.valueerror" -> \A y \in DOMAIN tr.lists :
                                   LET bogus == \E z \in DOMAIN tr.lists[y].steps : tr.lists[y].steps[z] \notin ValidSteps IN
                                   /\ (bogus <=> tr.lists[y].werr = "ValueError")
